@@ -627,7 +627,7 @@ def check(rep, prog, tier):
     r09_6(rep, prog)
     r09_7(rep, prog)
     from . import chanstate
-    chanstate.check(rep, 'R09.8', prog, 'celt_decode_lost', '')
+    chanstate.check(rep, 'R09.8', prog, 'celt_decode_lost', 'CC')
     r09_1(rep, prog)
     r09_2(rep, prog)
     r09_3(rep, prog)
